@@ -2,7 +2,7 @@
     Property theorems only; window functions REGENERATED from _running_window_mode.py, scatter
     loop modelled in Model/Driver.v (correspondence K3). *)
 From Coq Require Import ZArith QArith List Bool.
-From IV Require Import NP QL GenWindows Grid Driver Driver_proofs Driver_corollaries DriverCorr MonthsDriver_proofs.
+From IV Require Import NP QL GenWindows Grid Driver Driver_proofs Driver_corollaries DriverCorr MonthsDriver_proofs C07_proofs Window_exact.
 Import ListNotations.
 Open Scope Z_scope.
 
@@ -34,6 +34,21 @@ Theorem C08_window_reach : forall L c v, L / 2 < 183 ->
   circ v c <= L / 2.
 Proof. exact (fun L c v => window_within_halfwidth L 1 c v). Qed.
 Print Assumptions C08_window_reach.
+
+(** ... and it reaches ALL of them: the regenerated window range is EXACTLY the set of days of year within L/2
+    (circularly over the 366-day cycle) of the centre — nothing outside is used, nothing inside is left out *)
+Theorem C08_window_exact : forall L c v, 0 <= L / 2 -> L / 2 < 183 -> 1 <= v <= 366 ->
+  (In v (NP.replace_eq (NP.zmod_list (NP.arange (c - L / 2) (c + L / 2 + 1) 1) (365 + 1)) 0 366) <->
+   circ v c <= L / 2).
+Proof. exact window_exact. Qed.
+Print Assumptions C08_window_exact.
+
+(** the time steps handed to a window's calibration are exactly those whose day of year is within L/2 of the centre *)
+Theorem C08_window_indices_exact : forall L days c i, 0 <= L / 2 -> L / 2 < 183 -> (forall d, In d days -> 1 <= d <= 366) ->
+  (In i (days_indices_in_window L days c) <->
+   0 <= i < Z.of_nat (length days) /\ circ (nth (Z.to_nat i) days 0) c <= L / 2).
+Proof. exact days_window_exact. Qed.
+Print Assumptions C08_window_indices_exact.
 
 (** tightness, by computation: with L = 5, S = 1 on days 1..20 the probe's output on day 10
     changes when obs on day 12 (distance L/2 = 2) changes, and does not when obs on day 13 changes *)
